@@ -231,8 +231,8 @@ package streamfilter
 //@   allocates map, FilterResult, FilterNode
 //@   loop 1 modifies hwit, selSrc, selPos, nsel, flows.UserFlow, flows.SystemFlowStart, flows.SystemFlowEnd
 //@   loop 1 invariant[flags] flagsOK(flows) && (found <==> flows.UserFlow.FlowValid || flows.SystemFlowStart.FlowValid || flows.SystemFlowEnd.FlowValid)
-//@   loop 1 invariant[only-own-filter] forall(r, 0, len(flows.UserFlow.Flow), (plain(flows.UserFlow.Flow[r]) ==> ownFilterOK(flows.UserFlow.Flow[r], APIStream)) && exists(k, 0, idx1, exists(j, 0, len(filterNode[k].userFlows), flows.UserFlow.Flow[r] == filterNode[k].userFlows[j])))
-//@   loop 1 invariant[always-when-satisfied] forall(k, 0, idx1, forall(j, 0, len(filterNode[k].userFlows), plain(filterNode[k].userFlows[j]) && unsampled(filterNode[k].userFlows[j]) && ownFilterOK(filterNode[k].userFlows[j], APIStream) ==> found && exists(r, 0, len(flows.UserFlow.Flow), flows.UserFlow.Flow[r] == filterNode[k].userFlows[j])))
+//@   loop 1 invariant[only-own-filter] forall(r, 0, len(flows.UserFlow.Flow), (plain(flows.UserFlow.Flow[r]) ==> ownFilterOK(flows.UserFlow.Flow[r], APIStream)) && exists(k, 0, idx1, exists(j, 0, len(lookupResult.Value[k].userFlows), flows.UserFlow.Flow[r] == lookupResult.Value[k].userFlows[j])))
+//@   loop 1 invariant[always-when-satisfied] forall(k, 0, idx1, forall(j, 0, len(lookupResult.Value[k].userFlows), plain(lookupResult.Value[k].userFlows[j]) && unsampled(lookupResult.Value[k].userFlows[j]) && ownFilterOK(lookupResult.Value[k].userFlows[j], APIStream) ==> found && exists(r, 0, len(flows.UserFlow.Flow), flows.UserFlow.Flow[r] == lookupResult.Value[k].userFlows[j])))
 //@   ensures[no-node] len(lookupResult.Value) == 0 ==> !found && res == nil
 //@   ensures[only-own-filter] found ==> typeis(res, *FilterResult) && forall(r, 0, len(res.(*FilterResult).UserFlow.Flow), (plain(res.(*FilterResult).UserFlow.Flow[r]) ==> ownFilterOK(res.(*FilterResult).UserFlow.Flow[r], APIStream)) && exists(k, 0, len(lookupResult.Value), exists(j, 0, len(lookupResult.Value[k].userFlows), res.(*FilterResult).UserFlow.Flow[r] == lookupResult.Value[k].userFlows[j])))
 //@   ensures[always-when-satisfied] forall(k, 0, len(lookupResult.Value), forall(j, 0, len(lookupResult.Value[k].userFlows), plain(lookupResult.Value[k].userFlows[j]) && unsampled(lookupResult.Value[k].userFlows[j]) && ownFilterOK(lookupResult.Value[k].userFlows[j], APIStream) ==> found && typeis(res, *FilterResult) && exists(r, 0, len(res.(*FilterResult).UserFlow.Flow), res.(*FilterResult).UserFlow.Flow[r] == lookupResult.Value[k].userFlows[j])))
